@@ -66,6 +66,7 @@ func (p *Prog) forAllShape(fn *ssa.Function) (over string, ok bool) {
 		doneSucc = 1
 	}
 	trues, falses := 0, 0
+	zeroForms, absentOnly := 0, 0
 	for _, b := range fn.Blocks {
 		ret, isRet := b.Instrs[len(b.Instrs)-1].(*ssa.Return)
 		if !isRet || b.Comment == "recover" {
@@ -95,6 +96,16 @@ func (p *Prog) forAllShape(fn *ssa.Function) (over string, ok bool) {
 				continue
 			}
 			iff := e.From.Instrs[len(e.From.Instrs)-1].(*ssa.If)
+			// comma-ok form: `q, ok := mapParam[sliceParam[i]]`; !ok (no entry: nothing was given)
+			if base, neg := condOf(iff.Cond); true {
+				if bs := deepStrip(p.Sym(base)); bs.Op == "extract" && bs.Name == "1" && len(bs.Args) == 1 && bs.Args[0].Op == "index" && bs.Args[0].Args[0].Op == "param" {
+					if rb, okb := rangeElem(bs.Args[0].Args[1]); okb && rb.Op == "param" && (e.Succ == 0) == neg {
+						found = "slice"
+						absentOnly++
+						continue
+					}
+				}
+			}
 			cm := p.NormCmp(iff.Cond, e.Succ == 0)
 			if cm == nil || cm.Op != token.EQL || cm.LC != 0 || cm.RC != 0 {
 				continue
@@ -106,10 +117,15 @@ func (p *Prog) forAllShape(fn *ssa.Function) (over string, ok bool) {
 			if r.String() != "0" {
 				continue
 			}
+			// (the value of a comma-ok lookup is the entry)
+			if l.Op == "extract" && l.Name == "0" && len(l.Args) == 1 && l.Args[0].Op == "index" {
+				l = l.Args[0]
+			}
 			// slice form: mapParam[sliceParam[i]] == 0
 			if l.Op == "index" && l.Args[0].Op == "param" {
 				if base, okb := rangeElem(l.Args[1]); okb && base.Op == "param" {
 					found = "slice"
+					zeroForms++
 				}
 			}
 			// map form: value of the range entry == 0
@@ -124,6 +140,9 @@ func (p *Prog) forAllShape(fn *ssa.Function) (over string, ok bool) {
 	}
 	if trues != 1 || falses == 0 {
 		return "", false
+	}
+	if over == "slice" && absentOnly > 0 && zeroForms == 0 {
+		return "", false // only missing entries are refused: an entry that is present with 0 passes
 	}
 	return over, true
 }
@@ -231,7 +250,9 @@ func (p *Prog) isDescendingSort(fn *ssa.Function) bool {
 				continue
 			}
 			for _, s := range p.resultSyms(less, 0) {
-				// (x[j] < x[i])  with i, j the closure parameters in order (i, j)
+				// (x[j] < x[i])  with i, j the closure parameters in order (i, j); the comparison
+				// may sit in an expression helper (isHigher(x[i], x[j]))
+				s = p.expandSym(s, 0)
 				if s.Op != "bin" {
 					continue
 				}
